@@ -285,6 +285,23 @@ class FileSystem(object):
             path = path[len(pardir):].lstrip(path_sep)
 
         base_path = os.path.abspath(_convert(self.base_path))
+
+        # Links met on the way are resolved inside the sandbox
+        elts = path.split(path_sep)
+        for idx in range(1, len(elts)):
+            subpath = path_sep.join(elts[:idx])
+            sub_out_path = os.path.join(base_path, subpath)
+            if os.path.islink(sub_out_path):
+                link = os.path.normpath(os.path.join(
+                    path_sep,
+                    os.path.dirname(subpath),
+                    os.readlink(sub_out_path)
+                ))
+                return self.resolve_path(
+                    os.path.join(link, *elts[idx:]),
+                    follow_link=follow_link
+                )
+
         out_path = os.path.join(base_path, path)
         assert out_path.startswith(base_path + path_sep)
         if follow_link and os.path.islink(out_path):
